@@ -5,6 +5,8 @@ structure Obs where
   loaded : Bool
   nsig : Nat
   c0 : Nat
+  closed : Bool := true
+  quit : Bool := false
   steps : List (Nat × String) := []   -- completion time, op
   evs : List Ev := []
   sigs : List Nat := []               -- receive times
@@ -32,13 +34,15 @@ def parseTok (o : Obs) (w : String) : Option Obs :=
 
 def parseImpl (impl : String) : Option (Obs × String) :=
   match words impl with
-  | l :: n :: c :: fin :: rest => do
+  | l :: n :: c :: fin :: cl :: q :: rest => do
     let l ← parseKV "loaded" l
     let n ← (← parseKV "nsig" n).toNat?
     let c0 ← (← parseKV "c0" c).toNat?
     let _ ← parseKV "fin" fin
-    let o ← rest.foldlM parseTok { loaded := l == "1", nsig := n, c0 := c0 }
-    pure (o, " ".intercalate (c :: fin :: rest))
+    let clv ← parseKV "closed" cl
+    let qv ← parseKV "q" q
+    let o ← rest.foldlM parseTok { loaded := l == "1", nsig := n, c0 := c0, closed := clv == "1", quit := qv == "1" }
+    pure (o, " ".intercalate (c :: fin :: cl :: q :: rest))
   | _ => none
 
 def b01 (b : Bool) : String := if b then "1" else "0"
@@ -59,22 +63,20 @@ def step (_ : Unit) (op impl : String) : Unit × DrvOut :=
     match parseImpl impl with
     | none => ((), { model := "-", spec := "FAIL unparsable implementation answer" })
     | some (o, tail) =>
-      let mine := summary o.loaded o.nsig
-      let (pc, mc) := predict false o.c0 o.evs
+      -- only the loop with the trailing-edge timer (/repo 65048a4) is modelled
       let (pf, mf) := predict true o.c0 o.evs
-      let model :=
-        if (!mc && pc == mine) || (!mf && pf == mine) then mine ++ " " ++ tail
-        else if !mc && !mf then pc ++ " " ++ tail
-        else "-"
+      -- after the consumer has gone the loaded content says nothing: no prediction
+      let model := if mf || o.quit || !o.closed then "-" else pf ++ " " ++ tail
       let spec :=
-        if o.loaded then "ok"
+        if !o.closed then "FAIL Close did not return within 2 s (the loop is blocked, shutdown hangs)"
+        else if o.quit || o.loaded then "ok"
         else
           let changes := (o.steps.filter (fun p => p.2 != "x" && p.2 != "d")).map (·.1)
           match changes.getLast? with
           | none => "FAIL the consumer's last load differs from the final content although nothing changed"
           | some lc =>
             if inDropWindow lc o.sigs then
-              s!"KNOWN dropWindow the change finished at {lc} ms was never reported: it fell into the 1 s discard window after a signal"
+              s!"FAIL the change finished at {lc} ms was never reported: it fell into the 1 s window after a signal (regression of the trailing-edge timer, former finding dropWindow)"
             else s!"FAIL the change finished at {lc} ms was never reported although no signal preceded it by less than 1 s"
       ((), { model := model, spec := spec })
   | _ => ((), { model := "bad-op" })
